@@ -32,6 +32,26 @@ Theorem C05_sequential_call : forall B s cs m k c td rs, 1 <= B -> SeqState B s 
              SeqState B s' (bag_next B (m, k) c cs).
 Proof. intros B s cs m k c td rs HB. apply seq_call. exact HB. Qed.
 
+(* the HistogramFn entry point record_many(v, n) (run by the machine as n consecutive push calls,
+   Exec.expand_prog): it adds exactly n copies of v, one per call index k, k+1, ..; n = 0 changes
+   nothing.  record(v) is push(v). *)
+Theorem C05_sequential_record_many : forall B s cs m k v n, 1 <= B -> SeqState B s cs ->
+  exists s' cs', seq_exec B s (many_calls m k v n) s' (repeat RPush n) /\ SeqState B s' cs' /\
+                 Permutation (concat cs') (many_vals m k v n ++ concat cs) /\
+                 (n = 0 -> s' = s /\ cs' = cs).
+Proof. intros B s cs m k v n HB. apply seq_record_many. exact HB. Qed.
+
+Theorem C05_record_many_expansion : forall v n k (m : N),
+  expand_prog [XMany v n] = map (fun x => snd x) (many_calls m k v (N.to_nat n)).
+Proof.
+  intros v n k m. unfold expand_prog. cbn [flat_map]. rewrite app_nil_r. revert k.
+  induction (N.to_nat n) as [|j IH]; intros k; cbn; auto. rewrite <- IH. reflexivity.
+Qed.
+
+Theorem C05_record_many_example_run_ok :
+  known_class record_many_case = None /\ spec_ok record_many_case (run_case record_many_case) = true.
+Proof. exact record_many_example. Qed.
+
 Theorem C05_bag_push_adds : forall B x cs, Permutation (concat (push_contents B x cs)) (x :: concat cs).
 Proof. exact push_contents_perm. Qed.
 
@@ -183,16 +203,16 @@ Proof. intros B fxc ps sched HB c HL. apply conservation; [apply reachable_AllK;
    the conservation invariant holds at the end of the run *)
 Theorem C05_conservation_on_model_runs : forall c, known_class c = None ->
   let cf := fst (run_gen BS true true c) in
-  late (fst cf) = false /\ AllK BS cf /\ R (fst c) cf.
+  late (fst cf) = false /\ AllK BS cf /\ R (progs_of c) cf.
 Proof.
   intros c Hk cf. assert (HB : 1 <= BS) by (unfold BS; lia).
   split; [|split].
   - unfold known_class, late_claim_gen in Hk. fold cf in Hk. destruct (late (fst cf)); [discriminate|reflexivity].
-  - unfold cf, run_gen. apply invariant_exec_full; [exact (AllK_step BS HB true)|exact (AllK_init BS HB true (fst c))].
+  - unfold cf, run_gen. apply invariant_exec_full; [exact (AllK_step BS HB true)|exact (AllK_init BS HB true (progs_of c))].
   - unfold cf, run_gen.
-    apply (invariant_exec_full (step BS true true) site (fun c0 => All BS c0 /\ R (fst c) c0)
-             (R_step BS HB true (fst c)) rr_fuel (map N.to_nat (snd c)) (init_config (fst c))).
-    split; [exact (All_init BS HB true (fst c))|exact (R_init BS HB (fst c))].
+    apply (invariant_exec_full (step BS true true) site (fun c0 => All BS c0 /\ R (progs_of c) c0)
+             (R_step BS HB true (progs_of c)) rr_fuel (map N.to_nat (snd c)) (init_config (progs_of c))).
+    split; [exact (All_init BS HB true (progs_of c))|exact (R_init BS HB (progs_of c))].
 Qed.
 
 (* (5) SNAPSHOTS, every schedule (concurrent clears, hand-overs, late claims all allowed).
@@ -284,13 +304,13 @@ Qed.
    duplicates, same number, every push present). *)
 Theorem C05_spec_ok_sound : forall (c : case) tr rss done final anom,
   spec_ok c (tr, rss, done, final, anom) = true ->
-  anom = 0%N /\ all2 follows (fst c) rss = true /\
+  anom = 0%N /\ all2 follows (progs_of c) rss = true /\
   NoDup (map vid (cleared_out rss)) /\ NoDup (map vid (concat final)) /\
   (done = true ->
      NoDup (map vid (cleared_out rss ++ concat final)) /\
-     (forall x, In x (all_pushes (fst c) 0) -> In (vid x) (map vid (cleared_out rss ++ concat final))) /\
-     length (cleared_out rss ++ concat final) = length (all_pushes (fst c) 0)).
-Proof. intros c tr rss done final anom H. apply (spec_ok_sound (fst c) tr rss done final anom H). Qed.
+     (forall x, In x (all_pushes (progs_of c) 0) -> In (vid x) (map vid (cleared_out rss ++ concat final))) /\
+     length (cleared_out rss ++ concat final) = length (all_pushes (progs_of c) 0)).
+Proof. intros c tr rss done final anom H. apply (spec_ok_sound (progs_of c) tr rss done final anom H). Qed.
 
 (* the part of "the model satisfies the checker" that the invariants give: clause S1 (no identity
    handed to clears twice) is true on the model's run of EVERY case, in or out of the known class *)
